@@ -157,14 +157,14 @@ type c15Menu struct {
 func c15Menus(thorough bool) []c15Menu {
 	ups := []updSpec{{label: "to-1500m", cpuReq: 1500, cpuLim: 1500, memLim: 100 * miB}}
 	ta := func() *scenario {
-		s := &scenario{name: "ta/c15", policy: polTA, machine: machine8(), cfgs: []cfgSpec{taCfg("rsv750m"), taCfg("rsv-cpuset", taReserved("cpuset:0")), taCfg("avail-0-5", taAvailable("cpuset:0-5"), taReserved("cpuset:0"))},
+		s := &scenario{name: "ta/c15", policy: polTA, machine: machine8(), cfgs: []cfgSpec{taCfg("rsv750m"), taCfg("rsv-cpuset", taReserved("cpuset:0")), taCfg("avail-0-5", taAvailable("cpuset:0-5"), taReserved("cpuset:0")), taCfg("refused-reserved-outside", taReserved("cpuset:15"))},
 			pods: pods(tG2, tB500, tG1), updates: ups, maxInc: 1}
 		s.prefix = runAll(2) // p2 is not running yet
 		return s
 	}
 	bl := func() *scenario {
 		defs := dynShareDefs()
-		s := &scenario{name: "bl/c15", policy: polBalloons, machine: machine8(), cfgs: []cfgSpec{blCfg("dyn", defs), blCfg("dyn2", defs, blIdleClass("idle")), blCfg("dyn-avail-0-5", defs, blAvailable("cpuset:0-5"))},
+		s := &scenario{name: "bl/c15", policy: polBalloons, machine: machine8(), cfgs: []cfgSpec{blCfg("dyn", defs), blCfg("dyn2", defs, blIdleClass("idle")), blCfg("dyn-avail-0-5", defs, blAvailable("cpuset:0-5")), blCfg("refused-min-above-max", []*blDef{{Name: "dyn1", MinCpus: 3, MaxCpus: 2}})},
 			pods: []podSpec{nsPod("a", "dyn1", tG2, nil), nsPod("b", "share", tB500, nil), nsPod("c", "dyn1", tG1, nil)}, updates: ups, maxInc: 1}
 		s.prefix = runAll(2)
 		return s
@@ -178,6 +178,9 @@ func c15Menus(thorough bool) []c15Menu {
 		add("create||create", nil, []string{"create:c0"}, []string{"create:c1"})
 		add("create||stop", []string{"create:c0"}, []string{"create:c1"}, []string{"stop:c0"})
 		add("create||reconf", []string{"create:c0"}, []string{"create:c1"}, []string{"reconf:1"})
+		// a configuration the policy refuses (the old one is put back), next to a request: every exit of the update
+		// must leave the pipeline usable
+		add("create||reconf-refused", []string{"create:c0"}, []string{"create:c1"}, []string{"reconf:3"})
 		add("stoppod||create", []string{"create:c0", "stop:c0"}, []string{"stoppod:p0"}, []string{"create:c1"})
 		add("rmpod||reconf", []string{"create:c0", "stop:c0", "remove:c0", "stoppod:p0"}, []string{"rmpod:p0"}, []string{"reconf:1"})
 		add("sync||reconf", []string{"create:c0"}, []string{"sync"}, []string{"reconf:1"})
